@@ -220,3 +220,20 @@ fn c12_olayout_decisive() {
     let r = obs_with(Vec::new(), a).distance_olayout(&sig_with(Vec::new(), b));
     assert!(r == if eq { Some(0) } else { None });
 }
+
+// ---- fields that are never decisive: whatever the two values are, the component accepts (with a penalty at most);
+// in particular a signature that pins a window scale is still reachable by a packet without that option
+#[kani::proof]
+fn c12_nondecisive_fields_always_accept() {
+    let mut o = obs_with(Vec::new(), Vec::new());
+    let mut s = sig_with(Vec::new(), Vec::new());
+    o.wscale = kani::any(); s.wscale = kani::any();
+    o.mss = kani::any(); s.mss = kani::any();
+    o.olen = kani::any(); s.olen = kani::any();
+    let (w, m, l) = (o.distance_wscale(&s), o.distance_mss(&s), o.distance_olen(&s));
+    assert!(w.is_some() && m.is_some() && l.is_some());
+    // exact penalties: 0 when the signature leaves the field open or the values agree
+    assert!(w == Some(if s.wscale.is_none() || o.wscale == s.wscale { 0 } else { 1 }));
+    assert!(m == Some(if s.mss.is_none() || o.mss == s.mss { 0 } else { 2 }));
+    assert!(l == Some(if o.olen == s.olen { 0 } else { 2 }));
+}
